@@ -90,7 +90,13 @@ class NewtonRaphsonGeometry(StandardGeometry, ABC):
             if np.max(np.abs(dz)) < self.tol:
                 break
         position = np.column_stack((rays.x, rays.y, rays.z))
-        return np.linalg.norm(intersections - position, axis=1)
+        t = np.linalg.norm(intersections - position, axis=1)
+
+        # intersections "behind" the ray are not hits: report them as NaN
+        behind = np.sum((intersections - position) * ray_directions,
+                        axis=1) < 0
+        t[behind] = np.nan
+        return t
 
     def _intersection_sphere(self, rays):
         """
